@@ -204,6 +204,17 @@ def guard_ops(c, out, ops):
     return tot
 
 
+def sum_stats(out, adapters=None):
+    """Coverage counters of the harness adapters (harness/kv/stats.go), summed; for vacuity guards only."""
+    tot = {}
+    for name, st in (out.get("stats") or {}).items():
+        if adapters is not None and name not in adapters:
+            continue
+        for k, v in st.items():
+            tot[k] = tot.get(k, 0) + int(v)
+    return tot
+
+
 def first_sample(out):
     for r in out["reports"].values():
         if r.get("sample"):
@@ -234,8 +245,14 @@ def run(c):
     c.log("replayed %d transitions on %d stackings; walls %s" % (
         out["edges"], len(adapters), {k: round(v, 1) for k, v in out["wall_s"].items()}))
     guard_ops(c, out, ("put", "del", "bput", "bdel", "bwrite", "breset", "breplay", "snap", "release", "clear", "goto"))
+    # every second instance assembles its pre-state through the store's one long-lived batch object: operations queued
+    # on an object that has been written and Reset before must have been exercised on every backend family
+    st = sum_stats(out)
+    c.guard("batch_reuse_ops", st.get("batch_reuse_ops", 0))
+    c.guard("batch_reuse_writes", st.get("batch_reuse_writes", 0))
     reports = summarize(out)
     return c.finish("model_checking", dict(
+        batch_object_reuse=dict(ops=st.get("batch_reuse_ops", 0), writes=st.get("batch_reuse_writes", 0)),
         states=res.distinct + sns, transitions=res.generated + sne,
         traces_validated_against_impl=sum(r["walks"] for r in reports.values()),
         edges_replayed_on_impl=sum(r["applied"] for r in reports.values()),
